@@ -53,7 +53,7 @@ def plan(tier, seed):
 
 def floors(tier):
     return {'evaluations': 20000, 'distinct_nontrivial': 10000, 'comment_markers_checked': 20000,
-            'formula_markers_checked': 20000, 'discard_markers_checked': 5000, 'discards_with_blanks_between_arguments': 300, 'histkeys:position': 15,
+            'formula_markers_checked': 20000, 'discard_markers_checked': 5000, 'discards_with_blanks_between_arguments': 300, 'matrix_environments_with_comments': 100, 'histkeys:position': 15,
             'histkeys:math_env': 15, 'histkeys:option_cell': 24, 'k2_witness_checked': 1,
             'formulas_with_escaped_active_characters': 500, 'histkeys:entry_point': 3, 'crlf_documents': 500, 'hist:entry_point:latex2text()': 1000}
 
@@ -69,6 +69,7 @@ class Gen(object):
         self.markers = []       # dicts
         self.formulas = []
         self.blank_layouts = 0
+        self.matrices = 0
 
     def mark(self, kind, ctx, **kw):
         self.n += 1
@@ -126,6 +127,15 @@ class Gen(object):
             if 'item[' in form:
                 inner = '{' + inner + '}'          # braces protect any ] inside the optional argument
             return form % inner
+        if r < 0.71:
+            # matrix-like environments (formatted cell by cell): comments after a cell, after a row separator and after the
+            # last row separator
+            env = rng.choice(['pmatrix', 'bmatrix', 'array', 'smallmatrix'])
+            c1 = self.comment(dict(ctx, position='matrix-cell'))
+            c2 = self.comment(dict(ctx, position='after-row-separator'))
+            c3 = self.comment(dict(ctx, position='after-last-row-separator'))
+            self.matrices += 1
+            return '\\begin{%s}%s a & b %s \\\\ %s c & d \\\\ %s\\end{%s}' % (env, '{cc}' if env == 'array' else '', c1, c2, c3, env)
         if r < 0.76:
             form = rng.choice(['\\alpha', '\\alpha', 'x \\\\', 'x\\%', 'y \\&', '{z}', 'w\\,'])
             pos = {'\\alpha': 'after-macro', 'x \\\\': 'after-linebreak', '{z}': 'after-group'}.get(form, 'after-control-symbol')
@@ -337,6 +347,7 @@ def run_shard(desc, rec):
         doc = g.document()
         rec.monitor('formulas_with_escaped_active_characters', getattr(g, 'escaped_in_formula', 0))
         rec.monitor('discards_with_blanks_between_arguments', g.blank_layouts)
+        rec.monitor('matrix_environments_with_comments', g.matrices)
         kinds = set(m['kind'] for m in g.markers)
         for _ in range(desc['optsper']):
             mm, kc, sp, ft = combos[ci % len(combos)]
